@@ -327,11 +327,43 @@ def check_cse(idx: Index, rep: Report) -> None:
     if n_sites == 0:
         raise AnalysisError(f"{f.fq}: no path replaces the operation by a known one")
     g = idx.func(CSE, "has_other_side_effecting_op_in_between")
-    t = unparse(g.node)
-    if "effects is None or any((e.kind is MemoryEffectKind.WRITE for e in effects))" in t and "while next_op is not to_op:" in t:
+    from ..paths import enum_paths as _ep, expand_predicates as _xp, loops_of as _lo
+
+    gp = _ep(g.node)
+    wl = [l for l in _lo(gp) if isinstance(l.node, ast.While)]
+    if len(wl) != 1:
+        raise AnalysisError(f"{g.fq}: the scan loop between the two operations was not found")
+    frm, to = g.node.args.args[0].arg, g.node.args.args[1].arg
+    problems = []
+    if unparse(wl[0].node.test) not in (f"next_op is not {to}", f"next_op != {to}") and not re.fullmatch(rf"\w+ (is not|!=) {to}", unparse(wl[0].node.test)):
+        problems.append(f"the scan loop runs while `{unparse(wl[0].node.test)}`, not until the later operation is reached")
+    saw_none = saw_write = False
+    for pth in _xp(wl[0].body, {}):
+        if not pth.feasible():
+            continue
+        nf = pth.nfacts()
+        unknown = next((p_ for t_, p_ in nf if re.fullmatch(r"get_effects\(\w+\) is None", t_)), None)
+        write_any = next((p_ for t_, p_ in nf if re.fullmatch(r"any\(\(\w+\.kind (is|==) MemoryEffectKind\.WRITE for \w+ in (?:get_effects\(\w+\)|\w+)\)\)", t_)), None)
+        inner_write = any(isinstance(e_, type(wl[0])) and any(b_.end == "return" and b_.rvalue() == "True" and any(re.fullmatch(r"\w+\.kind (is|==) MemoryEffectKind\.WRITE", t2) and p2 for t2, p2 in b_.nfacts()) for b_ in e_.body) for e_ in pth.effects)
+        returns_true = pth.end == "return" and pth.rvalue() == "True"
+        if unknown is True:
+            saw_none = saw_none or returns_true
+            if not returns_true:
+                problems.append("an operation with unknown effects (None) does not block the replacement")
+        if write_any is True:
+            saw_write = saw_write or returns_true
+            if not returns_true:
+                problems.append("an operation with a WRITE effect does not block the replacement")
+        if inner_write and returns_true:
+            saw_write = True
+    if not saw_none:
+        problems.append("no path treats unknown effects as blocking")
+    if not saw_write:
+        problems.append("no path treats a WRITE effect as blocking")
+    if not problems:
         r.ok(g.fq, f"{g.loc} unknown effects or a write in between block the replacement")
     else:
-        r.fail(g.fq, Finding("C14.R5", g.fq, "write-scan", "the scan between the two ops must treat unknown effects and writes as blocking", g.loc))
+        r.fail(g.fq, Finding("C14.R5", g.fq, "write-scan", "the scan between the two ops must treat unknown effects and writes as blocking: " + "; ".join(problems), g.loc))
 
 
 def _after_effect_branch(f, c: ast.Call) -> bool:
